@@ -45,7 +45,7 @@ function run(req) {
   }
   let completion = 'normal';
   try {
-    script.runInContext(ctx, { timeout: 300, displayErrors: false });
+    script.runInContext(ctx, { timeout: 2000, displayErrors: false });
   } catch (e) {
     if (e && e.code === 'ERR_SCRIPT_EXECUTION_TIMEOUT') return 'stuck:timeout';
     if (e instanceof RangeError) return 'stuck:stack';
@@ -57,8 +57,8 @@ function run(req) {
     let v;
     try {
       v = new vm.Script(`(function(T,N){try{return ${n}}catch(e){return /before initialization/.test(e.message)?T:N}})`)
-        .runInContext(ctx, { timeout: 300 })(TDZ, NONE);
-    } catch (e) { v = NONE; }
+        .runInContext(ctx)(TDZ, NONE); // no timeout: a loaded machine must not change the observation
+    } catch (e) { return 'stuck:probe ' + String(e); }
     globals.push(n + '=' + (v === TDZ || v === NONE ? '<none>' : shw(v)));
   }
   return 'trace=' + trace.join(';') + '|completion=' + completion + '|globals=' + globals.join(';');
